@@ -379,7 +379,8 @@ def edit_constant(parameterized):
             # Some operations trigger a parameter instantiation (copy),
             # we ensure both the class and instance parameters are reset.
             if pname in kls_names:
-                type(parameterized).param[pname].constant=True
+                kls = parameterized if isinstance(parameterized, type) else type(parameterized)
+                kls.param[pname].constant=True
             if pname in inst_params:
                 parameterized.param[pname].constant = True
 
